@@ -364,14 +364,24 @@ pub(crate) fn ctl_challenges_of(proofs: &[Sp], cfg: &StarkConfig) -> (Challenger
 }
 
 /// what a verifier of the multi-table system does, with the public functions only
-fn verify_system<const NT: usize>(sys: &System, cfg: &StarkConfig, proofs: &[Sp]) -> String {
+fn verify_system<const NT: usize>(sys: &System, cfg: &StarkConfig, proofs: &[Sp]) -> String { verify_system_with::<NT>(sys, cfg, proofs, false) }
+
+/// `own_counts`: the helper-column counts handed to CtlCheckVars::from_proof are computed from the LOOKING
+/// appearances of the table only - what the prover (cross_table_lookup_data) really commits to - instead of by
+/// CrossTableLookup::num_ctl_helpers_zs_all, which also counts the looked appearance (known finding for a table
+/// that looks into itself).
+fn verify_system_with<const NT: usize>(sys: &System, cfg: &StarkConfig, proofs: &[Sp], own_counts: bool) -> String {
     verdict(|| -> anyhow::Result<()> {
         anyhow::ensure!(proofs.len() == NT);
         let ctls: Vec<CrossTableLookup<F>> = sys.ctls.iter().map(|c| CrossTableLookup::new(c.looking.iter().map(|t| t.to_twc()).collect(), c.looked.to_twc())).collect();
         let (challenger, ctl_challenges) = ctl_challenges_of(proofs, cfg);
         for i in 0..NT {
             let stark = S4 { spec: sys.tables[i].spec.clone() };
-            let (nhelp, _nz, by_ctl) = CrossTableLookup::num_ctl_helpers_zs_all(&ctls, i, cfg.num_challenges, stark.constraint_degree());
+            let (mut nhelp, _nz, mut by_ctl) = CrossTableLookup::num_ctl_helpers_zs_all(&ctls, i, cfg.num_challenges, stark.constraint_degree());
+            if own_counts {
+                by_ctl = sys.ctls.iter().map(|c| { let k = c.looking.iter().filter(|t| t.table == i).count(); if k > 1 { k.div_ceil(stark.constraint_degree() - 1) } else { 0 } }).collect();
+                nhelp = by_ctl.iter().sum::<usize>() * cfg.num_challenges;
+            }
             let nlk = stark.num_lookup_helper_columns(cfg);
             let ctl_vars = CtlCheckVars::from_proof(i, &proofs[i].proof, &ctls, &ctl_challenges, nlk, nhelp, &by_ctl);
             let mut ch = challenger.clone();
@@ -401,6 +411,9 @@ pub(crate) fn pv_system_multi(sys: &System, cfg: &StarkConfig, tamper: Option<(u
         Ok(p) => { let v = vs(sys, cfg, &p); ("proof".into(), v, Some(p)) }
         Err(e) => (e, "-".into(), None),
     }
+}
+fn vs_own(sys: &System, cfg: &StarkConfig, p: &[Sp]) -> String {
+    match sys.tables.len() { 2 => verify_system_with::<2>(sys, cfg, p, true), 3 => verify_system_with::<3>(sys, cfg, p, true), _ => verify_system_with::<4>(sys, cfg, p, true) }
 }
 fn vs(sys: &System, cfg: &StarkConfig, p: &[Sp]) -> String {
     match sys.tables.len() { 2 => verify_system::<2>(sys, cfg, p), 3 => verify_system::<3>(sys, cfg, p), _ => verify_system::<4>(sys, cfg, p) }
@@ -606,6 +619,33 @@ fn system_cases(w: &mut dyn Write, r: &mut Rng, sys: &mut System, cname: &str, c
     let (po, vo, proofs) = pv_system(sys, cfg, None);
     writeln!(w, "c10 {fam} honest = {} # holds={} prover={po} verify={vo}", accepted_iff(holds, &vo) as u8, holds as u8).unwrap();
     cnt += 2;
+    // a table that is looking AND looked: the library's helper count is off (known finding above); with the counts
+    // the prover really uses the system must behave like any other - honest accepted, every corruption rejected
+    let self_looking = sys.ctls.iter().any(|c| c.looking.iter().any(|t| t.table == c.looked.table));
+    if holds && vo != "ok" && self_looking {
+        if let Some(ps) = &proofs {
+            let v2 = vs_own(sys, cfg, ps);
+            writeln!(w, "c10 {fam} honest-own-helper-counts = {} # holds=1 verify={v2}", (v2 == "ok") as u8).unwrap();
+            cnt += 1;
+            if v2 == "ok" {
+                for ti in 0..sys.tables.len() {
+                    let nrows = sys.tables[ti].rows.len();
+                    let Some(i) = (0..nrows).find(|&i| sys.tables[ti].rows[i][2] == F::ONE) else { continue };
+                    for col in [0usize, 1] {
+                        let old = sys.tables[ti].rows[i][col];
+                        sys.tables[ti].rows[i][col] = old + F::ONE;
+                        let h2 = ctl_holds(sys) && constraints_ok(sys);
+                        let (po, _, ps2) = pv_system(sys, cfg, None);
+                        let v3 = ps2.as_ref().map(|p| vs_own(sys, cfg, p)).unwrap_or("-".into());
+                        writeln!(w, "c10 {fam} corrupt-own-helper-counts:table{ti}:selected-value:col{col} = {} # row={i} holds={} prover={po} verify={v3}",
+                                 accepted_iff(h2, &v3) as u8, h2 as u8).unwrap();
+                        cnt += 1;
+                        sys.tables[ti].rows[i][col] = old;
+                    }
+                }
+            }
+        }
+    }
     if !holds || vo != "ok" { return cnt; }
     let _ = &proofs;
     cnt += ctl_shift_cases(w, r, sys, cname, cfg);
